@@ -9,13 +9,16 @@ def setTok (tok : Nat) (t : Th) : Bool := t.pc == .set && t.tok == tok
 structure Inv (s : St) : Prop where
   sub : ∀ t ∈ s.settled, t ∈ s.live
   safe : s.settled ≠ [] → s.present = true ∧ s.armed = false
-  once : ∀ tok, s.thr.countP (setTok tok) + s.constructed.count tok ≤ 1
-  born : ∀ tok, 0 < s.thr.countP (setTok tok) + s.constructed.count tok → tok ∈ s.live ∨ tok ∈ s.doneToks
-  setLive : ∀ tok, 0 < s.thr.countP (setTok tok) → tok ∈ s.live
+  once : ∀ tok, s.thr.countP (regTok tok) + s.constructed.count tok ≤ 1
+  born : ∀ tok, 0 < s.thr.countP (regTok tok) + s.constructed.count tok → tok ∈ s.live ∨ tok ∈ s.doneToks
+  regLive : ∀ tok, 0 < s.thr.countP (regTok tok) → tok ∈ s.live
   setNew : ∀ tok ∈ s.settled, s.thr.countP (setTok tok) = 0
   disj : ∀ tok ∈ s.doneToks, tok ∉ s.live
   rel : s.used = true → s.present = true → s.live = [] →
-        s.thr.countP (at_ .found) = 0 → s.thr.countP (at_ .set) = 0 → s.armed = true
+        s.thr.countP (at_ .found) = 0 → s.thr.countP (at_ .set) = 0 → s.thr.countP (at_ .bind) = 0 →
+        s.armed = true
+  /-- a thread inside the protocol constructor: its instance's creation has completed -/
+  ctor : ∀ tok, s.thr.countP (setTok tok) < s.thr.countP (regTok tok) → tok ∈ s.settled
 
 theorem inv_init : Inv {} := by constructor <;> simp
 
@@ -30,21 +33,31 @@ theorem countP_set' {p : Th → Bool} {l : List Th} {i : Nat} {t t' : Th} (h : l
   rw [List.countP_set hi, ht] at *
   omega
 
+theorem setTok_le_regTok (tok : Nat) (l : List Th) : l.countP (setTok tok) ≤ l.countP (regTok tok) := by
+  apply List.countP_mono_left
+  intro t _ h
+  simp [setTok, regTok] at *
+  exact ⟨.inl h.1, h.2⟩
+
 /-- count bookkeeping after moving thread `i` from pc `a` to pc `b` -/
 theorem mv {l : List Th} {i tok0 m0 : Nat} {a : Pc} (h : l[i]? = some ⟨tok0, m0, a⟩) (b : Pc) :
     (∀ p, (l.set i ⟨tok0, m0, b⟩).countP (at_ p) + (if a = p then 1 else 0)
         = l.countP (at_ p) + (if b = p then 1 else 0)) ∧
     (∀ tok, (l.set i ⟨tok0, m0, b⟩).countP (setTok tok) + (if a = .set ∧ tok0 = tok then 1 else 0)
-        = l.countP (setTok tok) + (if b = .set ∧ tok0 = tok then 1 else 0)) := by
-  refine ⟨fun p => ?_, fun tok => ?_⟩
+        = l.countP (setTok tok) + (if b = .set ∧ tok0 = tok then 1 else 0)) ∧
+    (∀ tok, (l.set i ⟨tok0, m0, b⟩).countP (regTok tok) + (if (a = .set ∨ a = .bind) ∧ tok0 = tok then 1 else 0)
+        = l.countP (regTok tok) + (if (b = .set ∨ b = .bind) ∧ tok0 = tok then 1 else 0)) := by
+  refine ⟨fun p => ?_, fun tok => ?_, fun tok => ?_⟩
   · have := countP_set' (p := at_ p) (t' := ⟨tok0, m0, b⟩) h
     simpa [at_] using this
   · have := countP_set' (p := setTok tok) (t' := ⟨tok0, m0, b⟩) h
     simpa [setTok] using this
+  · have := countP_set' (p := regTok tok) (t' := ⟨tok0, m0, b⟩) h
+    simpa [regTok] using this
 
 theorem inv_thread (s s' : St) (i : Nat) (t : Th) (hI : Inv s) (ht : s.thr[i]? = some t)
     (hs : stepTh s i t = some s') : Inv s' := by
-  obtain ⟨hsub, hsafe, honce, hborn, hsl, hsn, hdj, hrel⟩ := hI
+  obtain ⟨hsub, hsafe, honce, hborn, hrl, hsn, hdj, hrel, hct⟩ := hI
   obtain ⟨tok0, m0, pc0⟩ := t
   cases pc0 with
   | fin => simp [stepTh] at hs
@@ -52,43 +65,41 @@ theorem inv_thread (s s' : St) (i : Nat) (t : Th) (hI : Inv s) (ht : s.thr[i]? =
     simp only [stepTh] at hs
     simp at hs; subst hs
     cases hp : s.present
-    · obtain ⟨cP, cT⟩ := mv ht .fin
-      have cF := cP .found; have cS := cP .set
-      try simp at cF cS cT
+    · obtain ⟨cP, cS, cR⟩ := mv ht .fin
+      simp at cS cR
       simp only [hp, ↓reduceIte, Bool.false_eq_true]
-      refine ⟨hsub, ?_, ?_, ?_, ?_, ?_, hdj, ?_⟩
+      refine ⟨hsub, ?_, ?_, ?_, ?_, ?_, hdj, ?_, ?_⟩
       all_goals (try dsimp only)
       · intro h; have := hsafe h; simp [hp] at this
-      · intro tok; rw [cT tok]; exact honce tok
-      · intro tok h; rw [cT tok] at h; exact hborn tok h
-      · intro tok h; rw [cT tok] at h; exact hsl tok h
-      · intro tok h; rw [cT tok]; exact hsn tok h
+      · intro tok; rw [cR tok]; exact honce tok
+      · intro tok h; rw [cR tok] at h; exact hborn tok h
+      · intro tok h; rw [cR tok] at h; exact hrl tok h
+      · intro tok h; rw [cS tok]; exact hsn tok h
       · intro _ hp'; simp at hp'
-    · obtain ⟨cP, cT⟩ := mv ht .found
-      have cF := cP .found; have cS := cP .set
-      try simp at cF cS cT
-      simp only [hp, ↓reduceIte, Bool.false_eq_true]
-      refine ⟨hsub, ?_, ?_, ?_, ?_, ?_, hdj, ?_⟩
+      · intro tok h; rw [cS tok, cR tok] at h; exact hct tok h
+    · obtain ⟨cP, cS, cR⟩ := mv ht .found
+      have cF := cP .found
+      simp at cF cS cR
+      simp only [hp, ↓reduceIte]
+      refine ⟨hsub, ?_, ?_, ?_, ?_, ?_, hdj, ?_, ?_⟩
       all_goals (try dsimp only)
       · intro h; have := hsafe h; simp [this]
-      · intro tok; rw [cT tok]; exact honce tok
-      · intro tok h; rw [cT tok] at h; exact hborn tok h
-      · intro tok h; rw [cT tok] at h; exact hsl tok h
-      · intro tok h; rw [cT tok]; exact hsn tok h
-      · intro _ _ _ hf _; omega
+      · intro tok; rw [cR tok]; exact honce tok
+      · intro tok h; rw [cR tok] at h; exact hborn tok h
+      · intro tok h; rw [cR tok] at h; exact hrl tok h
+      · intro tok h; rw [cS tok]; exact hsn tok h
+      · intro _ _ _ hf _ _; omega
+      · intro tok h; rw [cS tok, cR tok] at h; exact hct tok h
   | found =>
     simp only [stepTh] at hs
     split at hs
     · simp at hs
-    · rename_i hmux
-      have hmux0 : s.thr.countP (at_ .set) = 0 := by omega
-      split at hs
+    · split at hs
       · -- late message for a finished instance
-        rename_i hdone
         simp at hs; subst hs
-        obtain ⟨cP, cT⟩ := mv ht .fin
-        simp at cT
-        refine ⟨hsub, ?_, ?_, ?_, ?_, ?_, hdj, ?_⟩
+        obtain ⟨cP, cS, cR⟩ := mv ht .fin
+        simp at cS cR
+        refine ⟨hsub, ?_, ?_, ?_, ?_, ?_, hdj, ?_, ?_⟩
         all_goals (try dsimp only)
         · intro h
           have := hsafe h
@@ -98,56 +109,62 @@ theorem inv_thread (s s' : St) (i : Nat) (t : Th) (hI : Inv s) (ht : s.thr[i]? =
             | nil => exact h hse
             | cons a l => have := hsub a (by simp [hse]); simp [e] at this
           simp [this, hl]
-        · intro tok; rw [cT tok]; exact honce tok
-        · intro tok h; rw [cT tok] at h; exact hborn tok h
-        · intro tok h; rw [cT tok] at h; exact hsl tok h
-        · intro tok h; rw [cT tok]; exact hsn tok h
-        · intro _ _ hl _ _; simp [hl]
+        · intro tok; rw [cR tok]; exact honce tok
+        · intro tok h; rw [cR tok] at h; exact hborn tok h
+        · intro tok h; rw [cR tok] at h; exact hrl tok h
+        · intro tok h; rw [cS tok]; exact hsn tok h
+        · intro _ _ hl _ _ _; simp [hl]
+        · intro tok h; rw [cS tok, cR tok] at h; exact hct tok h
       · split at hs
         · -- the instance exists: hand over
           rename_i hlive
           simp at hs; subst hs
-          obtain ⟨cP, cT⟩ := mv ht .fin
-          simp at cT
-          refine ⟨hsub, hsafe, ?_, ?_, ?_, ?_, hdj, ?_⟩
+          obtain ⟨cP, cS, cR⟩ := mv ht .fin
+          simp at cS cR
+          refine ⟨hsub, hsafe, ?_, ?_, ?_, ?_, hdj, ?_, ?_⟩
           all_goals (try dsimp only)
-          · intro tok; rw [cT tok]; exact honce tok
-          · intro tok h; rw [cT tok] at h; exact hborn tok h
-          · intro tok h; rw [cT tok] at h; exact hsl tok h
-          · intro tok h; rw [cT tok]; exact hsn tok h
+          · intro tok; rw [cR tok]; exact honce tok
+          · intro tok h; rw [cR tok] at h; exact hborn tok h
+          · intro tok h; rw [cR tok] at h; exact hrl tok h
+          · intro tok h; rw [cS tok]; exact hsn tok h
           · intro _ _ hl; simp [hl] at hlive
+          · intro tok h; rw [cS tok, cR tok] at h; exact hct tok h
         · -- create the instance
           rename_i hnd hnl
           simp at hs; subst hs
-          have cT : ∀ tok, (s.thr.set i ⟨tok0, m0, .set⟩).countP (setTok tok)
+          obtain ⟨cP, cS0, cR0⟩ := mv ht .set
+          have cS : ∀ tok, (s.thr.set i ⟨tok0, m0, .set⟩).countP (setTok tok)
               = s.thr.countP (setTok tok) + (if tok0 = tok then 1 else 0) := by
-            intro tok; have := (mv ht .set).2 tok; simpa using this
-          have hzero : s.thr.countP (setTok tok0) + s.constructed.count tok0 = 0 := by
+            intro tok; have := cS0 tok; simpa using this
+          have cR : ∀ tok, (s.thr.set i ⟨tok0, m0, .set⟩).countP (regTok tok)
+              = s.thr.countP (regTok tok) + (if tok0 = tok then 1 else 0) := by
+            intro tok; have := cR0 tok; simpa using this
+          have hzero : s.thr.countP (regTok tok0) + s.constructed.count tok0 = 0 := by
             apply Classical.byContradiction; intro hne
             rcases hborn tok0 (by omega) with h | h
             · exact hnl h
             · exact hnd h
-          refine ⟨?_, hsafe, ?_, ?_, ?_, ?_, ?_, ?_⟩
+          refine ⟨?_, hsafe, ?_, ?_, ?_, ?_, ?_, ?_, ?_⟩
           all_goals (try dsimp only)
           · intro x hx; simp; left; exact hsub x hx
-          · intro tok; rw [cT tok]
+          · intro tok; rw [cR tok]
             by_cases e : tok0 = tok
             · subst e; rw [if_pos rfl]; omega
             · rw [if_neg e]; have := honce tok; omega
-          · intro tok h; rw [cT tok] at h
+          · intro tok h; rw [cR tok] at h
             by_cases e : tok0 = tok
             · subst e; simp
             · rw [if_neg e] at h
               rcases hborn tok (by omega) with h' | h'
               · simp [h']
               · simp [h']
-          · intro tok h; rw [cT tok] at h
+          · intro tok h; rw [cR tok] at h
             by_cases e : tok0 = tok
             · subst e; simp
             · rw [if_neg e] at h
-              have := hsl tok (by omega)
+              have := hrl tok (by omega)
               simp [this]
-          · intro tok h; rw [cT tok]
+          · intro tok h; rw [cS tok]
             by_cases e : tok0 = tok
             · subst e; exact absurd (hsub _ h) hnl
             · rw [if_neg e]; have := hsn tok h; omega
@@ -156,46 +173,45 @@ theorem inv_thread (s s' : St) (i : Nat) (t : Th) (hI : Inv s) (ht : s.thr[i]? =
             refine ⟨hdj tok h, ?_⟩
             intro e; subst e; exact hnd h
           · intro _ _ hl; simp at hl
+          · intro tok h; rw [cS tok, cR tok] at h
+            by_cases e : tok0 = tok
+            · subst e; rw [if_pos rfl] at h; exact hct _ (by omega)
+            · rw [if_neg e] at h; exact hct _ (by omega)
   | set =>
     simp only [stepTh] at hs
     simp at hs; subst hs
-    have cT : ∀ tok, (s.thr.set i ⟨tok0, m0, .fin⟩).countP (setTok tok) + (if tok0 = tok then 1 else 0)
+    obtain ⟨cP, cS0, cR0⟩ := mv ht .bind
+    have cS : ∀ tok, (s.thr.set i ⟨tok0, m0, .bind⟩).countP (setTok tok) + (if tok0 = tok then 1 else 0)
         = s.thr.countP (setTok tok) := by
-      intro tok; have := (mv ht .fin).2 tok; simpa using this
-    have hc : ∀ tok, (s.constructed ++ [tok0]).count tok
-        = s.constructed.count tok + (if tok0 = tok then 1 else 0) := by
-      intro tok
+      intro tok; have := cS0 tok; simpa using this
+    have cR : ∀ tok, (s.thr.set i ⟨tok0, m0, .bind⟩).countP (regTok tok) = s.thr.countP (regTok tok) := by
+      intro tok; have := cR0 tok
       by_cases e : tok0 = tok
-      · subst e; simp [List.count_append]
-      · have e' : ¬ tok = tok0 := fun h => e h.symm
-        simp [List.count_append, List.count_singleton, e, e']
-    have hpos : 0 < s.thr.countP (setTok tok0) := by
-      have := cT tok0; rw [if_pos rfl] at this; omega
-    have hlive : tok0 ∈ s.live := hsl tok0 hpos
-    have hone : s.thr.countP (setTok tok0) = 1 ∧ s.constructed.count tok0 = 0 := by
-      have := honce tok0; omega
-    refine ⟨?_, ?_, ?_, ?_, ?_, ?_, hdj, ?_⟩
+      · subst e; simp at this; omega
+      · simp [e] at this; omega
+    have hposS : 0 < s.thr.countP (setTok tok0) := by
+      have := cS tok0; rw [if_pos rfl] at this; omega
+    have hpos : 0 < s.thr.countP (regTok tok0) := Nat.lt_of_lt_of_le hposS (setTok_le_regTok tok0 s.thr)
+    have hlive : tok0 ∈ s.live := hrl tok0 hpos
+    have hSone : s.thr.countP (setTok tok0) = 1 := by
+      have h1 := setTok_le_regTok tok0 s.thr
+      have h2 := honce tok0
+      omega
+    have cB := cP .bind
+    simp at cB
+    refine ⟨?_, ?_, ?_, ?_, ?_, ?_, hdj, ?_, ?_⟩
     all_goals (try dsimp only)
     · intro x hx; simp [hlive] at hx
       rcases hx with hx | hx
       · exact hsub x hx
       · subst hx; exact hlive
     · intro _; simp
-    · intro tok; rw [hc tok]; have := cT tok; have := honce tok
-      by_cases e : tok0 = tok
-      · subst e; rw [if_pos rfl] at *; omega
-      · rw [if_neg e] at *; omega
-    · intro tok h; rw [hc tok] at h; have := cT tok
-      by_cases e : tok0 = tok
-      · subst e; left; exact hlive
-      · rw [if_neg e] at *; exact hborn tok (by omega)
-    · intro tok h; have := cT tok
-      by_cases e : tok0 = tok
-      · subst e; exact hlive
-      · rw [if_neg e] at this; exact hsl tok (by omega)
+    · intro tok; rw [cR tok]; exact honce tok
+    · intro tok h; rw [cR tok] at h; exact hborn tok h
+    · intro tok h; rw [cR tok] at h; exact hrl tok h
     · intro tok h
       simp [hlive] at h
-      have := cT tok
+      have := cS tok
       rcases h with h | h
       · have := hsn tok h
         by_cases e : tok0 = tok
@@ -203,6 +219,49 @@ theorem inv_thread (s s' : St) (i : Nat) (t : Th) (hI : Inv s) (ht : s.thr[i]? =
         · rw [if_neg e] at *; omega
       · subst h; rw [if_pos rfl] at this; omega
     · intro _ _ hl; simp [hl] at hlive
+    · intro tok h; rw [cR tok] at h; have := cS tok
+      by_cases e : tok0 = tok
+      · subst e; simp [hlive]
+      · rw [if_neg e] at this; have := hct tok (by omega); simp [hlive, this]
+  | bind =>
+    simp only [stepTh] at hs
+    simp at hs; subst hs
+    obtain ⟨cP, cS0, cR0⟩ := mv ht .fin
+    have cS : ∀ tok, (s.thr.set i ⟨tok0, m0, .fin⟩).countP (setTok tok) = s.thr.countP (setTok tok) := by
+      intro tok; have := cS0 tok; simpa using this
+    have cR : ∀ tok, (s.thr.set i ⟨tok0, m0, .fin⟩).countP (regTok tok) + (if tok0 = tok then 1 else 0)
+        = s.thr.countP (regTok tok) := by
+      intro tok; have := cR0 tok; simpa using this
+    have hc : ∀ tok, (s.constructed ++ [tok0]).count tok
+        = s.constructed.count tok + (if tok0 = tok then 1 else 0) := by
+      intro tok
+      by_cases e : tok0 = tok
+      · subst e; simp [List.count_append]
+      · have e' : ¬ tok = tok0 := fun h => e h.symm
+        simp [List.count_append, List.count_singleton, e, e']
+    have hpos : 0 < s.thr.countP (regTok tok0) := by
+      have := cR tok0; rw [if_pos rfl] at this; omega
+    have hlive : tok0 ∈ s.live := hrl tok0 hpos
+    refine ⟨hsub, hsafe, ?_, ?_, ?_, ?_, hdj, ?_, ?_⟩
+    all_goals (try dsimp only)
+    · intro tok; rw [hc tok]; have := cR tok; have := honce tok
+      by_cases e : tok0 = tok
+      · subst e; rw [if_pos rfl] at *; omega
+      · rw [if_neg e] at *; omega
+    · intro tok h; rw [hc tok] at h; have := cR tok
+      by_cases e : tok0 = tok
+      · subst e; left; exact hlive
+      · rw [if_neg e] at *; exact hborn tok (by omega)
+    · intro tok h; have := cR tok
+      by_cases e : tok0 = tok
+      · subst e; exact hlive
+      · rw [if_neg e] at this; exact hrl tok (by omega)
+    · intro tok h; rw [cS tok]; exact hsn tok h
+    · intro _ _ hl; simp [hl] at hlive
+    · intro tok h; rw [cS tok] at h; have := cR tok
+      by_cases e : tok0 = tok
+      · subst e; rw [if_pos rfl] at this; exact hct _ (by omega)
+      · rw [if_neg e] at this; exact hct _ (by omega)
 
 theorem inv_step (s s' : St) (a : Act) (hI : Inv s) (hs : step s a = some s') : Inv s' := by
   cases a with
@@ -213,25 +272,27 @@ theorem inv_step (s s' : St) (a : Act) (hI : Inv s) (hs : step s a = some s') : 
     · simp at hs
   | arrive tok m =>
     simp [step] at hs; subst hs
-    obtain ⟨hsub, hsafe, honce, hborn, hsl, hsn, hdj, hrel⟩ := hI
-    refine ⟨hsub, hsafe, ?_, ?_, ?_, ?_, hdj, ?_⟩
+    obtain ⟨hsub, hsafe, honce, hborn, hrl, hsn, hdj, hrel, hct⟩ := hI
+    refine ⟨hsub, hsafe, ?_, ?_, ?_, ?_, hdj, ?_, ?_⟩
     all_goals (try dsimp only)
-    · intro t; have := honce t; simpa [List.countP_append, setTok] using this
-    · intro t h; apply hborn t; simpa [List.countP_append, setTok] using h
-    · intro t h; apply hsl t; simpa [List.countP_append, setTok] using h
+    · intro t; have := honce t; simpa [List.countP_append, regTok] using this
+    · intro t h; apply hborn t; simpa [List.countP_append, regTok] using h
+    · intro t h; apply hrl t; simpa [List.countP_append, regTok] using h
     · intro t h; have := hsn t h; simpa [List.countP_append, setTok] using this
-    · intro hu hp hl hf hse
+    · intro hu hp hl hf hse hb
       apply hrel hu hp hl
       · simpa [List.countP_append, at_] using hf
       · simpa [List.countP_append, at_] using hse
+      · simpa [List.countP_append, at_] using hb
+    · intro t h; apply hct t; simpa [List.countP_append, regTok, setTok] using h
   | done tok =>
-    obtain ⟨hsub, hsafe, honce, hborn, hsl, hsn, hdj, hrel⟩ := hI
+    obtain ⟨hsub, hsafe, honce, hborn, hrl, hsn, hdj, hrel, hct⟩ := hI
     simp only [step] at hs
     split at hs
-    · rename_i hset
+    · rename_i hcond
+      obtain ⟨hset, hreg⟩ := hcond
       simp at hs; subst hs
-      have hz := hsn tok hset
-      refine ⟨?_, ?_, honce, ?_, ?_, ?_, ?_, ?_⟩
+      refine ⟨?_, ?_, honce, ?_, ?_, ?_, ?_, ?_, ?_⟩
       all_goals (try dsimp only)
       · intro x hx
         simp at hx
@@ -250,7 +311,7 @@ theorem inv_step (s s' : St) (a : Act) (hI : Inv s) (hs : step s a = some s') : 
           · left; simp [h', e]
         · right; simp [h']
       · intro t h
-        have := hsl t h
+        have := hrl t h
         by_cases e : t = tok
         · subst e; omega
         · simp [this, e]
@@ -260,59 +321,68 @@ theorem inv_step (s s' : St) (a : Act) (hI : Inv s) (hs : step s a = some s') : 
         rcases h with h | h
         · intro hc; simp at hc; exact hdj t h hc.1
         · subst h; simp
-      · intro _ _ hl _ _; simp at hl; simp; left; exact hl
+      · intro _ _ hl _ _ _; simp at hl; simp; left; exact hl
+      · intro t h; have := hct t h
+        by_cases e : t = tok
+        · subst e; omega
+        · simp [this, e]
     · simp at hs
   | expire =>
-    obtain ⟨hsub, hsafe, honce, hborn, hsl, hsn, hdj, hrel⟩ := hI
+    obtain ⟨hsub, hsafe, honce, hborn, hrl, hsn, hdj, hrel, hct⟩ := hI
     simp only [step] at hs
     split at hs
     · rename_i ha
       simp at hs; subst hs
-      refine ⟨hsub, ?_, honce, hborn, hsl, hsn, hdj, ?_⟩
-      all_goals (try dsimp only)
+      refine ⟨hsub, ?_, honce, hborn, hrl, hsn, hdj, ?_, hct⟩
       · intro h; have := hsafe h; simp [ha] at this
       · intro _ hp; simp at hp
     · simp at hs
   | localStart tok =>
-    obtain ⟨hsub, hsafe, honce, hborn, hsl, hsn, hdj, hrel⟩ := hI
+    obtain ⟨hsub, hsafe, honce, hborn, hrl, hsn, hdj, hrel, hct⟩ := hI
     simp only [step] at hs
     split at hs
     · simp at hs
     · rename_i hfresh
       simp at hfresh
       simp at hs; subst hs
-      have hzero : s.thr.countP (setTok tok) + s.constructed.count tok = 0 := by
+      have hzero : s.thr.countP (regTok tok) + s.constructed.count tok = 0 := by
         apply Classical.byContradiction; intro hne
         rcases hborn tok (by omega) with h | h
         · exact hfresh.1 h
         · exact hfresh.2.1 h
-      have cT : ∀ t, (s.thr ++ [(⟨tok, 0, .set⟩ : Th)]).countP (setTok t)
+      have cR : ∀ t, (s.thr ++ [(⟨tok, 0, .set⟩ : Th)]).countP (regTok t)
+          = s.thr.countP (regTok t) + (if tok = t then 1 else 0) := by
+        intro t
+        by_cases e : tok = t
+        · subst e; simp [List.countP_append, regTok]
+        · simp [List.countP_append, regTok, e]
+      have cS : ∀ t, (s.thr ++ [(⟨tok, 0, .set⟩ : Th)]).countP (setTok t)
           = s.thr.countP (setTok t) + (if tok = t then 1 else 0) := by
         intro t
         by_cases e : tok = t
         · subst e; simp [List.countP_append, setTok]
         · simp [List.countP_append, setTok, e]
-      refine ⟨?_, hsafe, ?_, ?_, ?_, ?_, ?_, ?_⟩
+      refine ⟨?_, hsafe, ?_, ?_, ?_, ?_, ?_, ?_, ?_⟩
       all_goals (try dsimp only)
       · intro x hx; simp; left; exact hsub x hx
-      · intro t; rw [cT t]
+      · intro t; rw [cR t]
         by_cases e : tok = t
         · subst e; rw [if_pos rfl]; omega
         · rw [if_neg e]; have := honce t; omega
-      · intro t h; rw [cT t] at h
+      · intro t h; rw [cR t] at h
         by_cases e : tok = t
         · subst e; simp
         · rw [if_neg e] at h
           rcases hborn t (by omega) with h' | h'
           · simp [h']
           · simp [h']
-      · intro t h; rw [cT t] at h
+      · intro t h; rw [cR t] at h
         by_cases e : tok = t
         · subst e; simp
         · rw [if_neg e] at h
-          have := hsl t (by omega)
+          have := hrl t (by omega)
           simp [this]
-      · intro t h; rw [cT t]
+      · intro t h; rw [cS t]
         by_cases e : tok = t
         · subst e; exact absurd (hsub _ h) hfresh.1
         · rw [if_neg e]; have := hsn t h; omega
@@ -321,6 +391,10 @@ theorem inv_step (s s' : St) (a : Act) (hI : Inv s) (hs : step s a = some s') : 
         refine ⟨hdj t h, ?_⟩
         intro e; subst e; exact hfresh.2.1 h
       · intro _ _ hl; simp at hl
+      · intro t h; rw [cS t, cR t] at h
+        by_cases e : tok = t
+        · subst e; rw [if_pos rfl] at h; exact hct _ (by omega)
+        · rw [if_neg e] at h; exact hct _ (by omega)
 
 theorem inv_run (as : List Act) (s : St) (h : Inv s) : Inv (run s as) := by
   induction as generalizing s with
@@ -349,6 +423,7 @@ theorem c11_done_monotone (s s' : St) (a : Act) (tok : Nat) (hs : step s a = som
         · split at hs
           · simp at hs; subst hs; exact hd
           · split at hs <;> (simp at hs; subst hs; exact hd)
+      · simp at hs; subst hs; exact hd
       · simp at hs; subst hs; exact hd
       · simp at hs
     · simp at hs
@@ -400,6 +475,33 @@ theorem c11_tree_while_used (as : List Act) (h : (run {} as).settled ≠ []) :
     (run {} as).present = true ∧ (run {} as).armed = false :=
   (inv_run as {} inv_init).safe h
 
+def bindTok (tok : Nat) (t : Th) : Bool := t.pc == .bind && t.tok == tok
+
+theorem reg_eq_set_add_bind (tok : Nat) (l : List Th) :
+    l.countP (regTok tok) = l.countP (setTok tok) + l.countP (bindTok tok) := by
+  induction l with
+  | nil => rfl
+  | cons t l ih =>
+    obtain ⟨t0, m0, pc0⟩ := t
+    simp only [List.countP_cons, ih]
+    cases pc0 <;> by_cases e : t0 = tok <;> simp [regTok, setTok, bindTok, e] <;> omega
+
+/-- **the tree stays while a constructor runs**: in every reachable state, while some thread is
+inside the protocol constructor of instance `tok` (listed, `Set` done, not yet bound), that instance
+is listed, the tree is in the storage and no removal is scheduled — whatever other instances of the
+tree finish meanwhile. -/
+theorem c11_tree_while_constructing (as : List Act) (t : Th) (ht : t ∈ (run {} as).thr)
+    (hpc : t.pc = .bind) :
+    t.tok ∈ (run {} as).live ∧ (run {} as).present = true ∧ (run {} as).armed = false := by
+  have hI := inv_run as {} inv_init
+  generalize run {} as = s at *
+  have hb : 0 < s.thr.countP (bindTok t.tok) := by
+    rw [List.countP_pos_iff]; exact ⟨t, ht, by simp [bindTok, hpc]⟩
+  have hr := reg_eq_set_add_bind t.tok s.thr
+  have ho := hI.once t.tok
+  have hs : t.tok ∈ s.settled := hI.ctor t.tok (by omega)
+  exact ⟨hI.sub _ hs, hI.safe (by intro e; simp [e] at hs)⟩
+
 /-- **grace**: only the timer removes the tree — every other step keeps a present tree. -/
 theorem c11_grace (s s' : St) (a : Act) (hs : step s a = some s') (hp : s.present = true)
     (ha : ∀ (e : a = .expire), False) : s'.present = true := by
@@ -418,6 +520,7 @@ theorem c11_grace (s s' : St) (a : Act) (hs : step s a = some s') (hp : s.presen
           · simp at hs; subst hs; exact hp
           · split at hs <;> (simp at hs; subst hs; exact hp)
       · simp at hs; subst hs; rfl
+      · simp at hs; subst hs; exact hp
       · simp at hs
     · simp at hs
   | done t =>
@@ -446,19 +549,28 @@ theorem c11_released (as : List Act)
     rw [List.countP_eq_zero]; intro t ht; rcases hq t ht with h | h <;> simp [at_, h]
   have h2 : s.thr.countP (at_ .set) = 0 := by
     rw [List.countP_eq_zero]; intro t ht; rcases hq t ht with h | h <;> simp [at_, h]
-  have ha := hI.rel hu hp hl h1 h2
+  have h3 : s.thr.countP (at_ .bind) = 0 := by
+    rw [List.countP_eq_zero]; intro t ht; rcases hq t ht with h | h <;> simp [at_, h]
+  have ha := hI.rel hu hp hl h1 h2 h3
   exact ⟨ha, { s with present := false, armed := false }, by simp [step, ha], rfl⟩
 
 /-! ### non-vacuity -/
 /-- a run: message creates instance 1, a second run 2 shares the tree, 1 finishes (tree stays: 2
 uses it), a late message for 1 is dropped, 2 finishes (removal armed), timer fires (released) -/
 private def demo : List Act :=
-  [.localStart 9, .thread 0, .arrive 1 11, .thread 1, .thread 1, .thread 1,
-   .arrive 2 12, .thread 2, .thread 2, .thread 2, .done 9, .done 1,
+  [.localStart 9, .thread 0, .thread 0, .arrive 1 11, .thread 1, .thread 1, .thread 1, .thread 1,
+   .arrive 2 12, .thread 2, .thread 2, .thread 2, .thread 2, .done 9, .done 1,
    .arrive 1 13, .thread 3, .thread 3, .done 2, .expire]
 example : (run {} demo).doneToks = [9, 1, 2] ∧ (run {} demo).constructed = [9, 1, 2] ∧
     (run {} demo).handed = [(1, 11), (2, 12)] ∧ (run {} demo).present = false ∧
-    (run {} (demo.take 16)).present = true ∧ (run {} (demo.take 16)).armed = true := by decide
+    (run {} (demo.take 19)).present = true ∧ (run {} (demo.take 19)).armed = true := by decide
+
+/-- a constructor of run 2 is running while run 1 finishes: the tree stays, no removal is scheduled -/
+private def demo2 : List Act :=
+  [.localStart 1, .thread 0, .thread 0, .arrive 2 5, .thread 1, .thread 1, .thread 1, .done 1]
+example : (run {} demo2).thr[1]? = some ⟨2, 5, .bind⟩ ∧ (run {} demo2).doneToks = [1] ∧
+    (run {} demo2).live = [2] ∧ (run {} demo2).present = true ∧ (run {} demo2).armed = false ∧
+    step (run {} demo2) (.done 2) = none := by decide
 
 /-! ### the code regions the model stands for
 Regenerated from /repo's source on every run (`harness/cmd/astfacts` → `OnetVerif/Shapes.lean`): the
